@@ -21,11 +21,4 @@ Example C16_kfold_instance :
   kfold_split 7 3 [3; 1; 6; 0; 2; 5; 4] =
   Some [([0; 2; 4; 5], [1; 3; 6]); ([1; 3; 4; 5; 6], [0; 2]); ([0; 1; 2; 3; 6], [4; 5])]
   /\ Permutation [3; 1; 6; 0; 2; 5; 4] (seq 0 7).
-Proof.
-  split; [reflexivity|]. apply NoDup_Permutation.
-  - repeat constructor; cbn; intuition discriminate.
-  - apply seq_NoDup.
-  - intros x. rewrite in_seq. cbn. split; intros H; [intuition subst; auto with arith|].
-    destruct H as [_ H]. do 7 (destruct x as [|x]; [tauto|]). exfalso. 
-    repeat apply Nat.succ_lt_mono in H. inversion H.
-Qed.
+Proof. split; [reflexivity|]. apply perm_check_sound. reflexivity. Qed.
